@@ -120,6 +120,35 @@ def hoist(n):
     _hoist_memo[n.id] = r
     return r
 
+_lift_memo = {}
+def lift_all(n, budget=None):
+    """full Shannon lifting: the result is an ordered decision DAG whose conditions are atomic
+    (contain no conditional themselves) and whose leaves are conditional-free values.  Two
+    graphs computing the same function of the same atomic conditions lift to graphs that agree
+    leaf by leaf.  budget = [remaining node constructions] (OverflowError when exhausted)"""
+    r = _lift_memo.get(n.id)
+    if r is not None:
+        return r
+    if budget is not None:
+        budget[0] -= 1
+        if budget[0] < 0: raise OverflowError('lifting budget exhausted')
+    if not n.args:
+        r = n
+    elif n.op == 'ite':
+        r = T.ite(lift_all(n.args[0], budget), lift_all(n.args[1], budget), lift_all(n.args[2], budget))
+    else:
+        args = [lift_all(a, budget) for a in n.args]
+        tops = [T._top(a) for a in args if a.op == 'ite']
+        if not tops:
+            r = n if all(p is q for p, q in zip(args, n.args)) else T.rebuild(n, tuple(args))
+        else:
+            v = min(tops)
+            hi = T.rebuild(n, tuple(T._cof(a, v, True) if a.op == 'ite' else a for a in args))
+            lo = T.rebuild(n, tuple(T._cof(a, v, False) if a.op == 'ite' else a for a in args))
+            r = T.ite(T._nodes[v], lift_all(hi, budget), lift_all(lo, budget))
+    _lift_memo[n.id] = r
+    return r
+
 def twin_same(JC, JU):
     """R07.same: on every non-throwing leaf of the checked form the unchecked form has the
     identical leaf.  Returns (ok, detail, n_leaves)"""
